@@ -31,6 +31,8 @@ import (
 	"github.com/ava-labs/hypersdk/internal/workers"
 	"github.com/ava-labs/hypersdk/state/balance"
 	"github.com/ava-labs/hypersdk/state/metadata"
+
+	internalfees "github.com/ava-labs/hypersdk/internal/fees"
 )
 
 // C07: a transaction is included only if its fee is at most Base.MaxFee; what it is charged is
@@ -39,6 +41,11 @@ import (
 //
 //   c07 <prices> <unitsR1> <unitsR2> <r2 = - | baseCompute,keyRead,keyAlloc,keyWrite> <maxBlockUnits>
 //       <sponsor> <balance|-> <maxfee> <tsoff> <scope> <actions> <dup 0|1> <authok 0|1>
+// fm (last field) = `-` | parentPrices/parentConsumed: the parent block's fee state. With `-` the
+// fee state is empty and <prices> are pinned through Rules.MinUnitPrice; otherwise the parent
+// block had unit prices P and consumption C (window target 1000, minimum price 1), so the NEXT
+// block's prices — <prices> on the line, computed by the real fee manager and checked against
+// the prices the real block reports — differ from the parent's (the fee market itself is C13).
 // dup=1: the validity window reports the tx as a repeat; authok=0: Auth.Verify fails. Such lines
 // exercise the rest of PreExecutor.PreExecute only (proc=na build=na).
 // One transaction OBJECT through the three real decision points, in the order of a node's life:
@@ -88,6 +95,7 @@ func (s *c07Rules) GetRules(t int64) chain.Rules {
 }
 
 type c07Ctx struct {
+	feeBytes func(base int64) []byte // parent fee state of the current line
 	r   *verifh.Run
 	ctx context.Context
 	mm  chain.MetadataManager
@@ -106,7 +114,11 @@ func (c *c07Ctx) newState(base int64, bals map[string]uint64) merkledb.MerkleDB 
 	}
 	put(chain.HeightKey(c.mm.HeightPrefix()), verifx.PutU64(0))
 	put(chain.TimestampKey(c.mm.TimestampPrefix()), verifx.PutU64(uint64(base-1000)))
-	put(chain.FeeKey(c.mm.FeePrefix()), []byte{})
+	feeState := []byte{}
+	if c.feeBytes != nil {
+		feeState = c.feeBytes(base)
+	}
+	put(chain.FeeKey(c.mm.FeePrefix()), feeState)
 	for k, v := range bals {
 		put([]byte(k), verifx.PutU64(v))
 	}
@@ -126,11 +138,39 @@ func (c *c07Ctx) balOf(v getter, key []byte) (*big.Int, bool) {
 	return new(big.Int).SetUint64(u), true
 }
 
-func mkRules(prices, maxU fees.Dimensions, r2 string) (*genesis.Rules, error) {
+// parseFM parses `P0,..,P4/C0,..,C4`.
+func parseFM(s string) (p, c fees.Dimensions, err error) {
+	f := strings.Split(s, "/")
+	if len(f) != 2 {
+		return p, c, fmt.Errorf("bad fm")
+	}
+	if p, err = verifx.ParseDims(f[0]); err != nil {
+		return
+	}
+	c, err = verifx.ParseDims(f[1])
+	return
+}
+
+// parentFeeBytes is the fee state a parent block with timestamp parentTs, unit prices p and
+// consumption c leaves behind.
+func parentFeeBytes(rules *genesis.Rules, parentTs int64, p, c fees.Dimensions) []byte {
+	m := internalfees.NewManager(nil).ComputeNext(parentTs, rules)
+	for d := fees.Dimension(0); d < fees.FeeDimensions; d++ {
+		m.SetUnitPrice(d, p[d])
+		m.SetLastConsumed(d, c[d])
+	}
+	return append([]byte{}, m.Bytes()...)
+}
+
+func mkRules(prices, maxU fees.Dimensions, r2 string, fm ...bool) (*genesis.Rules, error) {
 	rules := genesis.NewDefaultRules()
 	rules.MinUnitPrice = prices
 	rules.MaxBlockUnits = maxU
 	rules.WindowTargetUnits = fees.Dimensions{1 << 40, 1 << 40, 1 << 40, 1 << 40, 1 << 40}
+	if len(fm) > 0 && fm[0] {
+		rules.MinUnitPrice = fees.Dimensions{1, 1, 1, 1, 1}
+		rules.WindowTargetUnits = fees.Dimensions{1000, 1000, 1000, 1000, 1000}
+	}
 	if r2 != "-" {
 		f := strings.Split(r2, ",")
 		if len(f) != 4 {
@@ -207,6 +247,7 @@ func TestVerifC07(t *testing.T) {
 		rng := r.RNG
 		zero := fees.Dimensions{}
 		corpus := true
+		fmField := "-"
 		mkC07 := func(prices, maxU fees.Dimensions, r2, bal string, maxFee uint64, tsoff int64, scope, acts string) (string, fees.Dimensions) {
 			ra, _ := mkRules(prices, maxU, "-")
 			rb, err := mkRules(prices, maxU, r2)
@@ -228,7 +269,7 @@ func TestVerifC07(t *testing.T) {
 				flags = "0 1"
 			}
 			return fmt.Sprintf("c07 %s %s %s %s %s %s %s %d %d %s %s %s", verifx.DimsString(prices), verifx.DimsString(u1), verifx.DimsString(u2), r2,
-				verifx.DimsString(maxU), sponsorHex, bal, maxFee, tsoff, scope, acts, flags), u2
+				verifx.DimsString(maxU), sponsorHex, bal, maxFee, tsoff, scope, acts, flags+" "+fmField), u2
 		}
 		hundred := fees.Dimensions{100, 100, 100, 100, 100}
 		// corpus: the shape of vm.TestSubmitTx/valid_tx — default minimum price 100, MaxFee 1000
@@ -289,8 +330,27 @@ func TestVerifC07(t *testing.T) {
 			case 3:
 				tsoff = 10000
 			}
+			// price movement between the parent block and the next one (30% of the default-limit lines)
+			fmField = "-"
+			var parentFee uint64
+			moved := maxU == defMax && rng.Chance(30)
+			var pp, pc fees.Dimensions
+			if moved {
+				for d := range pp {
+					pp[d] = uint64(20 + rng.Intn(180))
+					if rng.Chance(50) {
+						pc[d] = 5000 // above the window target: the price rises
+					}
+				}
+				rfm, _ := mkRules(fees.Dimensions{}, maxU, "-", true)
+				prices = internalfees.NewManager(parentFeeBytes(rfm, 1_700_000_000_000, pp, pc)).ComputeNext(1_700_000_001_000, rfm).UnitPrices()
+				fmField = verifx.DimsString(pp) + "/" + verifx.DimsString(pc)
+			}
 			_, u := mkC07(prices, maxU, r2, "-", 0, tsoff, scope, acts)
 			fee := verifx.BigFee(prices, u).Uint64() // fee under the block's rules
+			if moved {
+				parentFee = verifx.BigFee(pp, u).Uint64()
+			}
 			var maxFee uint64
 			switch rng.Intn(7) {
 			case 0:
@@ -324,9 +384,14 @@ func TestVerifC07(t *testing.T) {
 			default:
 				bal = strconv.FormatUint(fee+uint64(rng.Intn(1_000_000)), 10)
 			}
+			if moved && rng.Chance(60) && parentFee != fee {
+				// a balance between the fee at the parent's prices and the fee at the next block's
+				bal = strconv.FormatUint((parentFee+fee)/2, 10)
+			}
 			l, _ := mkC07(prices, maxU, r2, bal, maxFee, tsoff, scope, acts)
 			lines = append(lines, l)
 		}
+		fmField = "-"
 		// blocks that fill up: n transactions, limits chosen so that only some of them fit
 		for i := 0; i < r.N(160, 3000); i++ {
 			prices := randPrices()
@@ -383,6 +448,7 @@ func TestVerifC07(t *testing.T) {
 	vw := &validitywindowtest.MockTimeValidityWindow[*chain.Transaction]{}
 	for _, l := range lines {
 		f := verifh.Fields(l)
+		c.feeBytes = nil
 		metrics, err := chain.NewMetrics(prometheus.NewRegistry())
 		if err != nil {
 			panic(err)
@@ -555,7 +621,7 @@ func TestVerifC07(t *testing.T) {
 		}
 
 		// =========================================================== c07
-		if len(f) != 14 || f[0] != "c07" || f[6] != sponsorHex || (f[12] != "0" && f[12] != "1") || (f[13] != "0" && f[13] != "1") {
+		if len(f) != 15 || f[0] != "c07" || f[6] != sponsorHex || (f[12] != "0" && f[12] != "1") || (f[13] != "0" && f[13] != "1") {
 			r.Emit(l, "bad-op")
 			continue
 		}
@@ -572,8 +638,16 @@ func TestVerifC07(t *testing.T) {
 			b, err := strconv.ParseUint(f[7], 10, 64)
 			bals[string(sks[0])], e7 = b, err
 		}
-		rules1, _ := mkRules(prices, maxU, "-")
-		rules2, e6 := mkRules(prices, maxU, f[4])
+		moved := f[14] != "-"
+		rules1, _ := mkRules(prices, maxU, "-", moved)
+		rules2, e6 := mkRules(prices, maxU, f[4], moved)
+		if moved {
+			pp, pc, err := parseFM(f[14])
+			if err != nil {
+				e6 = err
+			}
+			c.feeBytes = func(base int64) []byte { return parentFeeBytes(rules1, base-1000, pp, pc) }
+		}
 		base := nowBase()
 		tx, e8 := buildTx(sponsors[0], maxFee, base+tsoff, f[10], f[11], chainID, !authOk)
 		if e1 != nil || e2 != nil || e2b != nil || e3 != nil || e4 != nil || e5 != nil || e6 != nil || e7 != nil || e8 != nil {
@@ -630,6 +704,15 @@ func TestVerifC07(t *testing.T) {
 			adm = "err:" + verifx.ClassErr(err)
 		} else if fee1.IsUint64() && fee1.Uint64() > maxFee {
 			viol("fee-exceeds-maxfee", "PreExecutor.PreExecute admitted a tx whose fee at the next block's prices is %s > Base.MaxFee=%d", fee1, maxFee)
+		}
+		// admission must check the balance against the fee at the NEXT block's unit prices
+		if !dup && authOk {
+			switch {
+			case adm == "ok" && preBal.Cmp(fee1) < 0:
+				viol("admission-fee-ne-next-block-fee", "admitted although the sponsor balance %s is below the fee %s the next block charges (prices %v)", preBal, fee1, prices)
+			case adm == "err:insufficient" && preBal.Cmp(fee1) >= 0:
+				viol("admission-fee-ne-next-block-fee", "rejected for insufficient balance although the sponsor balance %s covers the fee %s the next block charges (prices %v)", preBal, fee1, prices)
+			}
 		}
 		if dup || !authOk {
 			if adm == "ok" {
